@@ -486,11 +486,10 @@ def special_values(rng):
     return cases
 
 
-# reported, undecided: q.sqrt(Fraction(5, 2)) raises TypeError (np.sqrt of a Fraction; scalar and array alike, so C11
-# itself holds); q.log(array, True) raises UndefinedOperationError (np.vectorize turns the bool into np.bool_, which is
-# not a numbers.Real) while q.log(array[i], True) works
-FRACTION_IN_FUNCTIONS = False
-BOOL_IN_VECTORISED_LOG = False
+# a Fraction is NOT used as the bare argument of a math function: q.sqrt(Fraction(5, 2)) raises TypeError in numpy's
+# ufunc, for the scalar and the vectorised call alike -- the results of functions on bare numbers are numpy's business,
+# not a claim of this property.  Fractions ARE used as number operands of arithmetic with arrays (converted since
+# b92b85e).  A bool as an argument of the vectorised two-argument log works since fix c7c6bdb.
 TYPES = ["int64", "int32", "int8", "uint8", "float32", "float16", "Fraction", "bool"]
 
 
@@ -591,12 +590,12 @@ def audit_cases(rng):
         for op in BINOPS:
             for sl in (True, False):
                 add("type", kind="binop", op=op, self_left=sl, A=gen_arr(rng, 2, "pos"), other=["npnum", x, t])
-        if t != "Fraction" or FRACTION_IN_FUNCTIONS:
+        if t != "Fraction":
             add("type", kind="fn", f="sqrt", arg=["npnum", x, t])
             add("type", kind="fn", f="sind", arg=["npnum", x, t])
-        if t != "bool" or BOOL_IN_VECTORISED_LOG:
-            add("type", kind="log2", a=["npnum", 2, t], b=["arr", gen_arr(rng, 2, "unit")])
-            add("type", kind="log2", a=["arr", gen_arr(rng, 2, "unit")], b=["npnum", x, t])
+        add("type", kind="log2", a=["npnum", 2, t] if t != "bool" else ["num", 2], b=["arr", gen_arr(rng, 2, "unit")])
+        add("type", kind="log2", a=["arr", gen_arr(rng, 2, "unit")], b=["npnum", x, t])
+        add("type", kind="log2", a=["npnum", x, t], b=["arr", gen_arr(rng, 2, "unit")])
     for dt_ in ("int64", "int32", "int8", "float32"):
         for op in BINOPS:
             for sl in (True, False):
